@@ -33,6 +33,22 @@ def raw_has_data():
     return dict(((z, a), dens.get(eb[z][1]) is not None) for z, a in keys)
 
 
+def raw_energy_dependent():
+    """(z, a) of the atoms the raw tables give an energy-dependent scattering length: the keys of
+    nsf_tables.ENERGY_DEPENDENT_TABLES ((symbol, mass number) pairs) and natural Lu, which nsf.py mixes from its isotopes."""
+    eb = rawtables.element_base()
+    symz = dict((v[1], z) for z, v in eb.items())
+    out = set()
+    try:
+        tabs = rawtables.const("nsf_tables", "ENERGY_DEPENDENT_TABLES")
+    except Exception:
+        tabs = rawtables.const("nsf", "ENERGY_DEPENDENT_TABLES")
+    for (sym, a) in tabs:            # keys are (symbol, mass number or 0)
+        out.add((symz[sym], int(a) if a else 0))
+    out.add((71, 0))
+    return out
+
+
 def header():
     c = rawtables.module_constants("constants")
     D = lambda x: Decimal(repr(x))
